@@ -29,6 +29,10 @@ inductive Op where
   | processFail
   /-- `Iterator::next` where `Model::run` returns an error (environment choice). -/
   | nextFail
+  /-- `Iterator::next` where the run succeeds but the logits output cannot be converted to a
+  rank-3 float tensor (`"failed to extract logits from model outputs"`): the error is raised
+  *after* the caches, `prev_tokens` and the pending tokens were updated. -/
+  | nextBadLogits
   deriving Repr, DecidableEq
 
 /-- What the abstract model observes in one `Model::run` call. -/
@@ -62,6 +66,7 @@ inductive Outcome where
   | errEmpty             -- `next` → `Some(Err("filtered logits are empty"))`
   | panicNoRow           -- `next` with nothing pending: logits have no row, `slice((0, -1))` panics
   | errRun               -- `process_prompt`/`next` → `Err("failed to run model: …")`
+  | errLogits            -- `next` → `Err("failed to extract logits from model outputs: …")`
   deriving Repr, DecidableEq
 
 /-- How `generate_impl` records the prompt in `prev_tokens`.
@@ -158,6 +163,7 @@ def step (r : Rule) (s : State) : Op → StepOut
     else ⟨s1, some c, some s1.prev, .errEmpty⟩
   | .processFail => let (s1, c) := generateFail s false; ⟨s1, some c, none, .errRun⟩
   | .nextFail => let (s1, c) := generateFail s true; ⟨s1, some c, none, .errRun⟩
+  | .nextBadLogits => let (s1, c) := generateImpl r s true; ⟨s1, some c, none, .errLogits⟩
 
 /-- Run a history from state `s`, collecting the model's call log. -/
 def runFrom (r : Rule) : State → List Op → State × List Call
@@ -213,12 +219,42 @@ def Spec.step (hasKv : Bool) (sp : Spec) : Op → Spec
   | .nextEmpty => sp.feed hasKv
   | .processFail => sp.feedFail
   | .nextFail => sp.feedFail
+  | .nextBadLogits => sp.feed hasKv
 
 def Spec.runFrom (hasKv : Bool) : Spec → List Op → Spec
   | sp, [] => sp
   | sp, op :: ops => Spec.runFrom hasKv (sp.step hasKv op) ops
 
 def Spec.run (hasKv : Bool) (ops : List Op) : Spec := Spec.runFrom hasKv Spec.init ops
+
+/-! ## "Submitted" tokens, defined on the operations alone
+
+Independent of `State`, `Spec`, calls and caches: the in-order concatenation of the
+`with_prompt` / `append_prompt` arguments and the sampled tokens, minus the tokens that were
+still waiting when a `clear_prompt` or a later `with_prompt` discarded them.  The only
+bookkeeping is how many trailing tokens are still waiting (`npend`); a run of the model — it is
+irrelevant here whether anything is fed — resets it, a failed run does not. -/
+
+structure Sub where
+  /-- every token handed over and not discarded, in order -/
+  kept : List Nat
+  /-- how many trailing tokens of `kept` can still be discarded -/
+  npend : Nat
+  deriving Repr, DecidableEq
+
+def Sub.step (sb : Sub) : Op → Sub
+  | .withPrompt p => ⟨sb.kept.take (sb.kept.length - sb.npend) ++ p, p.length⟩
+  | .append p => ⟨sb.kept ++ p, sb.npend + p.length⟩
+  | .clear => ⟨sb.kept.take (sb.kept.length - sb.npend), 0⟩
+  | .process => ⟨sb.kept, 0⟩
+  | .nextEmpty => ⟨sb.kept, 0⟩
+  | .next t => if sb.npend = 0 then sb else ⟨sb.kept ++ [t], 1⟩
+  | .processFail => sb
+  | .nextFail => sb
+  | .nextBadLogits => ⟨sb.kept, 0⟩
+
+/-- Tokens submitted by a history to a generator whose model has a KV cache. -/
+def submitted (ops : List Op) : List Nat := (ops.foldl Sub.step ⟨[], 0⟩).kept
 
 /-! ## Log predicates (also the definition the harness oracle implements) -/
 
